@@ -31,6 +31,7 @@ sub-exploration. Non-trivial: as in the replayed properties, and every dirty-swe
     ],
     run,
     replay,
+    from_bytes: None,
 };
 
 pub fn check_case(c: &Case, env: &Env) -> CheckResult {
